@@ -132,9 +132,32 @@ def _valid_names(i):
     return ok
 
 
-def _steps(i, cats):
+# kind ids this binary does not know (the harness registers no such kind): an entry of such a kind
+# cannot be turned into an entity either
+_UNKNOWN_KINDS = {7}
+
+
+def _effective_steps(i):
+    """What applyConfig can act on. An entry that cannot be decoded (invalid name, unknown kind)
+    is skipped by applyConfig while its key is still in the config map: the name keeps whatever
+    it had (nothing, or its previous entity, untouched). Snapshots reached by Clean are empty."""
     ok = _valid_names(i)
-    return L([L([T(N(e[0]), _spec(cats, e[1], e[2])) for e in st or [] if e[0] in ok]) for st in i["steps"] or []])
+    clean = set(i.get("clean") or [])
+    prev, out = {}, []
+    for t, st in enumerate(i["steps"] or []):
+        cur = {}
+        for e in ([] if t in clean else st or []):
+            if e[0] in ok and e[1] not in _UNKNOWN_KINDS:
+                cur[e[0]] = (e[1], e[2])
+            elif e[0] in prev:
+                cur[e[0]] = prev[e[0]]
+        out.append([[n, k, v] for n, (k, v) in sorted(cur.items())])
+        prev = cur
+    return out
+
+
+def _steps(i, cats):
+    return L([L([T(N(e[0]), _spec(cats, e[1], e[2])) for e in st]) for st in _effective_steps(i)])
 
 
 def _evrows(cats, rows):
